@@ -1,5 +1,6 @@
 import Pms.Props.Extra
 import Pms.Props.Filon
+import Pms.Props.WaveX
 
 #print axioms Pms.Extra.E_lines_intersection
 #print axioms Pms.Extra.E_lines_parallel
@@ -15,3 +16,15 @@ import Pms.Props.Filon
 #print axioms Pms.Filon.antider_deriv
 #print axioms Pms.Filon.integral_quad_cos
 #print axioms Pms.Filon.E_filon_panel_exact
+#print axioms Pms.WaveX.E_wavex_source
+#print axioms Pms.WaveX.T3_wf
+#print axioms Pms.WaveX.T2_wf
+#print axioms Pms.WaveX.E_wv_refines
+#print axioms Pms.WaveX.E_wavevector_refines
+#print axioms Pms.WaveX.E_wavevector3d_mem
+#print axioms Pms.WaveX.E_wavevector2d_mem
+#print axioms Pms.WaveX.E_wv_sorted
+#print axioms Pms.WaveX.E_continuous_refines
+#print axioms Pms.WaveX.E_continuous3_mem
+#print axioms Pms.WaveX.E_continuous2_mem
+#print axioms Pms.WaveX.E_continuous_nodup
